@@ -4,6 +4,7 @@
 
 #include <deque>
 #include <memory>
+#include <set>
 #include <string>
 #include <tuple>
 
@@ -25,6 +26,16 @@ const char* action_name(int a) {
 }
 
 std::map<std::string, uint64_t> g_extra;
+
+// Captured by value in every observer callable: tells whether the callable object itself is still alive.
+struct Canary {
+    static std::set<const Canary*>& live() { static std::set<const Canary*> s; return s; }
+    Canary() { live().insert(this); }
+    Canary(const Canary&) { live().insert(this); }
+    Canary(Canary&&) noexcept { live().insert(this); }
+    Canary& operator=(const Canary&) = default;
+    ~Canary() { live().erase(this); }
+};
 
 struct MObs {
     int id = 0, kind = 0;   // kind: 0 plain callable, 1 SelfView callable, 2 unique_ptr<Derived>
@@ -99,7 +110,7 @@ struct Scenario {
     }
 
     // ---- what the real observers call
-    void on_invoke(int id, const Stored& got) {
+    void on_invoke(int id, const Stored& got, const Canary* canary) {
         sim::ev(E_INVOKE, id, (int)rounds.size());
         invocations++;
         if (rounds.empty()) sim::violation("invoked-outside-notify", "observer " + std::to_string(id) + " invoked while no notify() is in progress");
@@ -131,6 +142,11 @@ struct Scenario {
             if (inject == 1) n = n >= 3 ? n - 2 : 0;  // {0,0,0,1,2}
             for (int i = 0; i < n; i++) action(id, true);
         }
+        // The callable of an observer that is still subscribed must still exist: muting or invalidating a running observer
+        // (itself, or the one that started the nested round we are in) must not destroy the code that is executing.
+        // (Unsubscribing it — directly, or lazily by a nested round passing over an invalidated observer — does, by design.)
+        if (obs[id].subscribed && !Canary::live().count(canary))
+            sim::violation("callable-destroyed-while-running", "the callable of observer " + std::to_string(id) + " was destroyed during its own invocation although the observer is still subscribed");
         // right after the call an invalid observer is removed
         pass(id);
     }
@@ -196,20 +212,20 @@ struct Scenario {
         Scenario* self = this;
         std::unique_ptr<Sub> h;
         if (kind == 0) {
-            h = std::make_unique<Sub>(subject->subscribe([self, id](Args... a) {
+            h = std::make_unique<Sub>(subject->subscribe([self, id, cn = Canary()](Args... a) {
                 Scenario* s = self; int i = id;           // copy out: the closure may be destroyed by an action
-                s->on_invoke(i, Stored(a...));
+                s->on_invoke(i, Stored(a...), &cn);
             }));
         } else if (kind == 1) {
-            h = std::make_unique<Sub>(subject->subscribe([self, id](SelfView view, Args... a) {
+            h = std::make_unique<Sub>(subject->subscribe([self, id, cn = Canary()](SelfView view, Args... a) {
                 Scenario* s = self; int i = id;
                 if (!view->isValid()) sim::violation("invoked-after-invalidate", "SelfView of a running observer reports invalid");
-                s->on_invoke(i, Stored(a...));
+                s->on_invoke(i, Stored(a...), &cn);
             }));
         } else {
-            auto p = std::make_unique<TrackedObs>(this, id, [self, id](Args... a) {
+            auto p = std::make_unique<TrackedObs>(this, id, [self, id, cn = Canary()](Args... a) {
                 Scenario* s = self; int i = id;
-                s->on_invoke(i, Stored(a...));
+                s->on_invoke(i, Stored(a...), &cn);
             });
             h = std::make_unique<Sub>(subject->subscribe(std::move(p)));
         }
